@@ -11,7 +11,7 @@ exact rationals; an event list is a list of (time, event) with non-decreasing ti
 namespace Zeno.Props.C13
 open Zeno Zeno.Model.RateLimiter
 
-abbrev G : Facts := Zeno.Gen.RateLimiter.facts
+abbrev G : Facts := Facts.modelled Zeno.Gen.RateLimiter.facts
 
 theorem facts_ok : ok G = true := by decide +kernel
 
